@@ -856,5 +856,3 @@ def run_relative_imports_resolved_against_module(chk: Check, ix) -> None:
                     r18.ok(key, f.loc(c))
                 else:
                     r18.violation(key, f.loc(c), f"the first argument is `{norm(c.args[0])}`, not a module id ({', '.join(MODULE_ID_IDIOMS)}): for a target inside a function or class (`pkg.app.run`) `from . import x` resolves to `pkg.app.x`, so the comparison with the module that appeared or changed fails and the importer is not refreshed")
-    if n < 3:
-        raise AnalysisError(f"only {n} calls of correct_relative_import found in mypy/server/ (expected update.refresh_suppressed_submodules and two in deps.py)")
